@@ -8,8 +8,10 @@
 
   Modelled rather than verified: Go channels (FIFO buffer, close semantics:
   receive on a closed empty channel yields the zero value, send on a closed
-  channel panics), sync.Mutex, sync/atomic, util/timer.Timer (Stop waits for a
-  running callback and prevents later ones: `idleBusy`/`capBusy`/`idleOn`/`capOn`).
+  channel panics), sync.Mutex, sync2.Semaphore of one slot (`scaling`: Acquire
+  blocks, TryAcquire does not, a panic runs the deferred Release), sync/atomic,
+  util/timer.Timer (Stop waits for a running callback and prevents later ones:
+  `idleBusy`/`capBusy`/`idleOn`/`capOn`).
   Time is abstracted: `recent` = "the last scale-out is at most 60 s old",
   `Alt.expired` = "the idle timeout of the inspected resource has passed",
   `Alt.timeout` = "the context of a waiting Get expires now".
@@ -31,6 +33,7 @@ structure Pool where
   active : Int
   baseCap : Int
   lock : Bool               -- rp.lock is held
+  scaling : Bool            -- the rp.scaling semaphore is taken
   todo : Bool               -- rp.scaleInTodo holds an element
   recent : Bool             -- time.Now().Unix() - rp.scaleOutTime <= 60
   dynamic : Bool            -- rp.Dynamic
@@ -61,8 +64,8 @@ inductive Pc where
   | gRecv (f : Nat) | gWait (f : Nat) | gMake (f : Nat) | gFailSend
   | gAct (r : Nat) | gAvail (r : Nat) | gInUse (r : Nat)
   -- scaleOutResources / AddCapacityResource (inside get)
-  | soLock (f : Nat) | soCap (f : Nat) | soCap2 (f : Nat) | soAdd (f : Nat) (c : Int)
-  | soAvail (f : Nat) | soUnlock (f : Nat) (ok stamp : Bool)
+  | soLock (f : Nat) | soCap (f : Nat) | soTry (f : Nat) | soCap2 (f : Nat) | soAdd (f : Nat) (c : Int)
+  | soAvail (f : Nat) | soRelease (f : Nat) (ok : Bool) | soUnlock (f : Nat) (ok stamp : Bool)
   -- Put
   | pAct | pSend (w : Slot) | pInUse | pAvail
   -- closeIdleResources
@@ -70,9 +73,9 @@ inductive Pc where
   -- SetCapacity
   | scLoad (c : Int) | scCas (c old : Int)
   -- ScaleCapacity
-  | sLoad (c : Int) | sCas (c old : Int)
+  | sLock (c : Int) | sLoad (c : Int) | sCas (c old : Int)
   | sShrRecv (c old i : Int) | sShrAct (c old i : Int) | sShrAvail (c old i : Int)
-  | sGrowSend (c old i : Int) | sGrowAvail (c old i : Int) | sClose
+  | sGrowSend (c old i : Int) | sGrowAvail (c old i : Int) | sClose | sUnlock
   -- scaleInResources and its spawned goroutine
   | tLock | tCap | tTodo | tUnlock | kLoad | kDone
   -- Close
@@ -83,7 +86,7 @@ inductive Pc where
 inductive Ev where
   | none | skip | spawn
   | got (r : Nat) | errClosed | errTimeout | errFactory
-  | sErrRange | sErrClosed   -- errors returned by ScaleCapacity (its callers ignore them)
+  | sErrRange                -- range error returned by ScaleCapacity (its callers ignore it)
   | okPut | ok
   | panicPutFull | panicPutClosed | panicSendClosed | panicCloseClosed
   deriving Repr, BEq, DecidableEq
@@ -113,7 +116,7 @@ def newPool (capacity maxCap : Int) (dynamic : Bool) : Option Pool :=
   else some {
     chan := List.replicate capacity.toNat none, closed := false, maxCap := maxCap.toNat,
     capacity := capacity, available := capacity, inUse := 0, active := 0, baseCap := capacity,
-    lock := false, todo := false, recent := false, dynamic := dynamic,
+    lock := false, scaling := false, todo := false, recent := false, dynamic := dynamic,
     idleOn := true, capOn := true, idleBusy := 0, capBusy := 0, nextRes := 0 }
 
 /-- Where a thread goes after receiving wrapper `w` in `get`. -/
@@ -126,11 +129,11 @@ def afterScale (t : Thread) : Pc := if t.child then .kDone else .idle
 
 /-- ScaleCapacity's range check (no shared action besides the constant maxCapacity). -/
 def scaleEntry (p : Pool) (t : Thread) (c : Int) : Pc × Ev :=
-  if c < 0 ∨ c > p.maxCap then (afterScale t, .sErrRange) else (.sLoad c, .none)
+  if c < 0 ∨ c > p.maxCap then (afterScale t, .sErrRange) else (.sLock c, .none)
 
 /-- After the shrink/grow loops of ScaleCapacity. -/
-def scaleTail (t : Thread) (c : Int) : Pc × Ev :=
-  if c = 0 then (.sClose, .none) else (afterScale t, .ok)
+def scaleTail (c : Int) : Pc :=
+  if c = 0 then .sClose else .sUnlock
 
 /-- End of closeIdleResources. -/
 def sweepEnd (p : Pool) (t : Thread) : Res :=
@@ -182,16 +185,21 @@ def stepThread (p : Pool) (t : Thread) (a : Alt) : Option Res :=
   | .soLock f =>                                  -- rp.lock.Lock()
     if p.lock then none else some { pool := { p with lock := true }, thr := { t with pc := .soCap f } }
   | .soCap f =>                                   -- rp.capacity.Get() < rp.maxCapacity.Get()
-    if p.capacity < p.maxCap then some { pool := p, thr := { t with pc := .soCap2 f } }
+    if p.capacity < p.maxCap then some { pool := p, thr := { t with pc := .soTry f } }
     else some { pool := p, thr := { t with pc := .soUnlock f false false } }
+  | .soTry f =>                                   -- rp.scaling.TryAcquire()
+    if p.scaling then some { pool := p, thr := { t with pc := .soUnlock f false false } }
+    else some { pool := { p with scaling := true }, thr := { t with pc := .soCap2 f } }
   | .soCap2 f =>                                  -- AddCapacityResource: capacity := rp.capacity.Get()
-    if p.capacity ≤ 0 ∨ p.capacity ≥ p.maxCap then some { pool := p, thr := { t with pc := .soUnlock f false true } }
+    if p.capacity ≤ 0 ∨ p.capacity ≥ p.maxCap then some { pool := p, thr := { t with pc := .soRelease f false } }
     else some { pool := p, thr := { t with pc := .soAdd f p.capacity } }
   | .soAdd f c =>                                 -- rp.capacity.CompareAndSwap(capacity, capacity+1)
     if p.capacity = c then some { pool := { p with capacity := c + 1 }, thr := { t with pc := .soAvail f } }
     else some { pool := p, thr := { t with pc := .soCap2 f } }
   | .soAvail f =>                                 -- rp.available.Add(1)
-    some { pool := { p with available := p.available + 1 }, thr := { t with pc := .soUnlock f true true } }
+    some { pool := { p with available := p.available + 1 }, thr := { t with pc := .soRelease f true } }
+  | .soRelease f ok =>                            -- rp.scaling.Release()
+    some { pool := { p with scaling := false }, thr := { t with pc := .soUnlock f ok true } }
   | .soUnlock f ok stamp =>                       -- (rp.scaleOutTime = now;) rp.lock.Unlock()
     -- scaleOutTime is written whenever AddCapacityResource was called, successful or not
     let p' := { p with lock := false, recent := stamp || p.recent }
@@ -235,9 +243,7 @@ def stepThread (p : Pool) (t : Thread) (a : Alt) : Option Res :=
         if a.expired then some { pool := { p with chan := rest }, thr := { t with pc := .cAct n i } }
         else some { pool := { p with chan := rest }, thr := { t with pc := .cSend n i (some r) } }
       | none => some { pool := { p with chan := rest }, thr := { t with pc := .cSend n i none } }
-    | [] =>
-      if p.closed then some { pool := p, thr := { t with pc := .cSend n i none } }
-      else some (sweepEnd p t)
+    | [] => some (sweepEnd p t)                   -- closed (`!ok`) or nothing there (`default`): return
   | .cAct n i => some { pool := { p with active := p.active - 1 }, thr := { t with pc := .cSend n i none } }
   | .cSend n i w =>                               -- rp.resources <- wrapper
     if p.closed then some { pool := p, thr := { t with pc := .dead }, ev := .panicSendClosed }
@@ -255,9 +261,11 @@ def stepThread (p : Pool) (t : Thread) (a : Alt) : Option Res :=
       some { pool := p', thr := { t with pc := pc }, ev := ev }
     else some { pool := p', thr := { t with pc := .idle }, ev := .ok }
   ---------------------------------------------------------------- ScaleCapacity
+  | .sLock c =>                                   -- rp.scaling.Acquire()
+    if p.scaling then none else some { pool := { p with scaling := true }, thr := { t with pc := .sLoad c } }
   | .sLoad c =>                                   -- oldcap = int(rp.capacity.Get())
-    if p.capacity = 0 then some { pool := p, thr := { t with pc := afterScale t }, ev := .sErrClosed }
-    else if p.capacity = c then some { pool := p, thr := { t with pc := afterScale t }, ev := .ok }
+    if p.capacity = 0 then some { pool := p, thr := { t with pc := .sUnlock } }       -- return ErrClosed
+    else if p.capacity = c then some { pool := p, thr := { t with pc := .sUnlock } }  -- return nil
     else some { pool := p, thr := { t with pc := .sCas c p.capacity } }
   | .sCas c old =>                                -- rp.capacity.CompareAndSwap(oldcap, capacity)
     if p.capacity = old then
@@ -276,21 +284,22 @@ def stepThread (p : Pool) (t : Thread) (a : Alt) : Option Res :=
   | .sShrAvail c old i =>                         -- rp.available.Add(-1)
     let p' := { p with available := p.available - 1 }
     if i + 1 < old - c then some { pool := p', thr := { t with pc := .sShrRecv c old (i + 1) } }
-    else let (pc, ev) := scaleTail t c
-      some { pool := p', thr := { t with pc := pc }, ev := ev }
+    else some { pool := p', thr := { t with pc := scaleTail c } }
   | .sGrowSend c old i =>                         -- rp.resources <- resourceWrapper{}
-    if p.closed then some { pool := p, thr := { t with pc := .dead }, ev := .panicSendClosed }
+    -- a panic runs the deferred rp.scaling.Release()
+    if p.closed then some { pool := { p with scaling := false }, thr := { t with pc := .dead }, ev := .panicSendClosed }
     else if p.chan.length < p.maxCap then
       some { pool := { p with chan := p.chan ++ [none] }, thr := { t with pc := .sGrowAvail c old i } }
     else none
   | .sGrowAvail c old i =>                        -- rp.available.Add(1)
     let p' := { p with available := p.available + 1 }
     if i + 1 < c - old then some { pool := p', thr := { t with pc := .sGrowSend c old (i + 1) } }
-    else let (pc, ev) := scaleTail t c
-      some { pool := p', thr := { t with pc := pc }, ev := ev }
+    else some { pool := p', thr := { t with pc := scaleTail c } }
   | .sClose =>                                    -- close(rp.resources)
-    if p.closed then some { pool := p, thr := { t with pc := .dead }, ev := .panicCloseClosed }
-    else some { pool := { p with closed := true }, thr := { t with pc := afterScale t }, ev := .ok }
+    if p.closed then some { pool := { p with scaling := false }, thr := { t with pc := .dead }, ev := .panicCloseClosed }
+    else some { pool := { p with closed := true }, thr := { t with pc := .sUnlock } }
+  | .sUnlock =>                                   -- return; the deferred rp.scaling.Release()
+    some { pool := { p with scaling := false }, thr := { t with pc := afterScale t }, ev := .ok }
   ---------------------------------------------------------------- scaleInResources
   | .tLock => if p.lock then none else some { pool := { p with lock := true }, thr := { t with pc := .tCap } }
   | .tCap =>                                      -- capacity > baseCapacity && now - scaleOutTime > 60
@@ -310,7 +319,7 @@ def stepThread (p : Pool) (t : Thread) (a : Alt) : Option Res :=
   | .clIdle =>                                    -- rp.idleTimer.Stop(): waits for a running sweep
     if p.idleBusy = 0 then some { pool := { p with idleOn := false }, thr := { t with pc := .clCap } } else none
   | .clCap =>                                     -- rp.capTimer.Stop(); then ScaleCapacity(0)
-    if p.capBusy = 0 then some { pool := { p with capOn := false }, thr := { t with pc := .sLoad 0 } } else none
+    if p.capBusy = 0 then some { pool := { p with capOn := false }, thr := { t with pc := .sLock 0 } } else none
 
 /-- The whole system: the pool and any number of threads. -/
 structure State where
